@@ -33,6 +33,33 @@ TRUSTED_BASE = [
 ]
 
 
+_T = "translator tie (regenerated from /repo on every run, trusted): "
+TRANSLATORS = {
+    "C01": _T + "harness/py2v_dispatch.py + coq/lib/PyDispatch.v "
+           "(Application.__request__, state_from_table, error_from_table, "
+           "handler_from_before -> gen/DispatchGen.v)",
+    "C02": _T + "harness/py2v_select.py (handler_from_table, "
+           "handler_from_default -> gen/SelectGen.v)",
+    "C05": _T + "harness/py2v_shapes.py + coq/lib/PyShapes.v (make_response, "
+           "to_response, __start_response__ -> gen/ShapesGen.v)",
+    "C07": _T + "harness/py2v.py + coq/lib/Py.v (make_partial, range block, "
+           "__range_generator__ -> gen/RangeGen.v)",
+    "C09": _T + "harness/py2v.py + coq/lib/Py.v (CachedInput.read/readline "
+           "-> gen/CachedGen.v)",
+    "C11": _T + "harness/py2v_digest.py + coq/lib/PyDigest.v (check_response,"
+           " check_credentials, check_digest handler -> gen/DigestGen.v)",
+    "C13": _T + "harness/py2v_hidden.py + coq/lib/PyBytes.v (session.hidden "
+           "-> gen/HiddenGen.v)",
+    "C15": _T + "harness/py2pages.py (nine page functions of results.py -> "
+           "gen/PagesGen.v)",
+    "C16": _T + "harness/py2v.py + coq/lib/Py.v (get_token, check_token -> "
+           "gen/TokenGen.v)",
+}
+TRANSLATORS["C03"] = TRANSLATORS["C04"] = TRANSLATORS["C01"]
+TRANSLATORS["C06"] = TRANSLATORS["C07"]
+TRANSLATORS["C20"] = TRANSLATORS["C02"]
+
+
 def sh(cmd, timeout, cwd=None, env=None):
     try:
         proc = subprocess.run(cmd, cwd=cwd, env=env, timeout=timeout,
@@ -435,7 +462,9 @@ class Ctx:
             "checker_cmd": "coq_makefile -f coq/_CoqProject && make -j16 "
             "(coqc 8.16.1, full .vo build); coqc -Q coq PW coq/props/%s.v "
             "(Print Assumptions under every theorem)" % self.prop,
-            "trusted_base": TRUSTED_BASE + (assumptions or []),
+            "trusted_base": TRUSTED_BASE + (
+                [TRANSLATORS[self.prop]] if self.prop in TRANSLATORS
+                else []) + (assumptions or []),
             "theorems": obl["theorems"],
             "evaluations": max(1, self.evaluations),
             "distinct_nontrivial": len(self.nontrivial),
